@@ -27,13 +27,14 @@ Definition run_eval (K : Fops Qc) (c : Z) (args : list sx) : option sx :=
   (* 102: evaluate_basis(basis, points, transform) -> [K][N] *)
   | 102%Z, [basis; pts; t] =>
       Some (enc2 (evaluate_basis_model K (dec_list dec_shell basis) (dec_list dec_point pts) (dec_opt dec_mat t)))
-  (* 103: sum of |terms| behind each entry of 101 (tolerance scale) -> [K][N] *)
-  | 103%Z, [basis; pts; o; t] =>
-      Some (enc2 (evaluate_scale_model K (dec_list dec_shell basis) (dec_list dec_point pts)
-                    (dec_comp o) (dec_opt dec_mat t)))
+  (* 103: sum of |terms| behind each entry of 101 (tolerance scale) -> [K][N];
+          nog = 1: the same with every Gaussian factor replaced by 1 *)
+  | 103%Z, [basis; pts; o; t; nog] =>
+      Some (enc2 (evaluate_scale_model K (dec_bool nog) (dec_list dec_shell basis)
+                    (dec_list dec_point pts) (dec_comp o) (dec_opt dec_mat t)))
   (* 104: sum of |terms| behind each entry of 100 -> [M][L][N] *)
-  | 104%Z, [s; pts; o] =>
-      Some (enc3 (block_scale K (dec_shell s) (dec_list dec_point pts) (dec_comp o)))
+  | 104%Z, [s; pts; o; nog] =>
+      Some (enc3 (block_scale K (dec_bool nog) (dec_shell s) (dec_list dec_point pts) (dec_comp o)))
   (* 105: one axis: (n, l, alpha, x, has1, has2) -> (u, deriv_general, deriv_direct) *)
   | 105%Z, [n; l; a; x; h1; h2] =>
       Some (enc1 [u K (dec_q a) (dec_nat l) (dec_nat n) (dec_q x);
